@@ -224,16 +224,6 @@ InitRes == st = St0 /\ h = <<>> /\ nf = -1 /\ res \in {r \in SeqsUpTo(ResAlphabe
 NextRes == st = St0 /\ st' = PlaceAll(ResArgs).st /\ h' = ResArgs /\ UNCHANGED <<res, nf>>
 EmitRes == EmitJ(Case(h', res, -1, "res"))
 
-(* -------------------------------------------------------------- simulation *)
-(* long random prototypes: random results, random position of `...`                                      *)
-SimRes == {<<>>, <<"i64">>, <<"i8">>, <<"u16">>, <<"i32">>, <<"u32">>, <<"f">>, <<"d">>, <<"ld">>, <<"p">>,
-           <<"i64", "i64">>, <<"d", "d">>, <<"i64", "d">>, <<"d", "i64">>, <<"ld", "ld">>, <<"f", "i16", "ld">>,
-           <<"u8", "d", "i32", "f">>, <<"ld", "i64", "ld", "d">>, <<"i32", "u32", "f", "f">>,
-           <<"ld", "d", "i64", "ld", "f", "p">>}
-InitSim == st = St0 /\ h = <<>> /\ res \in SimRes /\ nf \in -1..16
-NextSim == \E k \in (IF nf >= 0 /\ Len(h) >= nf THEN TailKinds ELSE Kinds) : Step(k)
-EmitSim == (Len(h') \in SimLens) => EmitJ(Case(h', res, IF nf > Len(h') THEN -1 ELSE nf, "sim"))
-
 (* ------------------------------------------- properties of the spec itself *)
 (* 1. register files are never over-committed, stack offsets are aligned and strictly increasing *)
 Shape ==
@@ -261,4 +251,19 @@ VaReadsPlacement ==
   \A n \in 0..Len(h) :
      (\A i \in (n + 1)..Len(h) : TailLegal(h[i])) =>
         VaAll(VaStart(SubSeq(h, 1, n)), SubSeq(h, n + 1, Len(h))) = SubSeq(PlaceAll(h).locs, n + 1, Len(h))
+
+(* -------------------------------------------------------------- simulation *)
+(* long random prototypes: random results, random position of `...`                                      *)
+SimRes == {<<>>, <<"i64">>, <<"i8">>, <<"u16">>, <<"i32">>, <<"u32">>, <<"f">>, <<"d">>, <<"ld">>, <<"p">>,
+           <<"i64", "i64">>, <<"d", "d">>, <<"i64", "d">>, <<"d", "i64">>, <<"ld", "ld">>, <<"f", "i16", "ld">>,
+           <<"u8", "d", "i32", "f">>, <<"ld", "i64", "ld", "d">>, <<"i32", "u32", "f", "f">>,
+           <<"ld", "d", "i64", "ld", "f", "p">>}
+InitSim == st = St0 /\ h = <<>> /\ res \in SimRes /\ nf \in -1..16
+(* the case is emitted from the state the simulator has chosen (an ACTION_CONSTRAINT would be evaluated on  *)
+(* every candidate successor), before the next argument is drawn                                          *)
+EmitSim == (Len(h) \in SimLens) => /\ Assert(Shape /\ Disjoint /\ Whole /\ VaReadsPlacement, "spec property fails on a simulated prototype")
+                                    /\ EmitJ(Case(h, res, IF nf > Len(h) THEN -1 ELSE nf, "sim"))
+NextSim == /\ EmitSim
+           /\ \E k \in (IF nf >= 0 /\ Len(h) >= nf THEN TailKinds ELSE Kinds) : Step(k)
+
 =============================================================================
